@@ -69,23 +69,26 @@ def main(tier):
                        'families are never executed by the test suite on this host. Kernel arithmetic is not decided.')
     rep.trusted = ['nasm/objdump decoding', 'ASMFLOW transfer functions (fail-closed: an unmodelled GPR-writing instruction or an address of unknown provenance is reported)',
                    'SysV argument roles from include/erasure_code.h', 'clang AST']
-    ecwrap.check_wrappers(rep, 'encode')
-    check_kernel_stores(rep, 'dot_prod', 'P-EC-STORE', 33)
-    provenance.check_undef(rep, {'ec_dot_prod'}, 'EC', 33)
-    provenance.check_kwidth(rep, {'ec_dot_prod'}, 'EC', 33)
-    gftype.check(rep, {'ec_dot_prod'}, 'EC', 33)
+    rep.attempt(ecwrap.check_wrappers, rep, 'encode')
+    rep.attempt(check_kernel_stores, rep, 'dot_prod', 'P-EC-STORE', 33)
+    rep.attempt(provenance.check_undef, rep, {'ec_dot_prod'}, 'EC', 33)
+    rep.attempt(provenance.check_kwidth, rep, {'ec_dot_prod'}, 'EC', 33)
+    rep.attempt(gftype.check, rep, {'ec_dot_prod'}, 'EC', 33)
     import bounds
-    bounds.check(rep, {'ec_dot_prod'}, 'EC', 33)
+    rep.attempt(bounds.check, rep, {'ec_dot_prod'}, 'EC', 33)
     import gfrows
-    gfrows.check_dot(rep, 33)
+    rep.attempt(gfrows.check_dot, rep, 33)
     import baseloops
-    baseloops.check(rep, 'EC', ['ec_encode_data_base', 'gf_vect_dot_prod_base', 'ec_init_tables_base'], 5)
+    rep.attempt(baseloops.check, rep, 'EC', ['ec_encode_data_base', 'gf_vect_dot_prod_base', 'ec_init_tables_base'], 5)
     import tbladvance
-    tbladvance.check(rep, 'EC', {'ec_dot_prod'}, 150)
+    rep.attempt(tbladvance.check, rep, 'EC', {'ec_dot_prod'}, 150)
     import eclayout
-    eclayout.check(rep, 'EC', ['ec_encode_data_base', 'gf_vect_dot_prod_base'], 3, writer=True)
+    rep.attempt(eclayout.check, rep, 'EC', ['ec_encode_data_base', 'gf_vect_dot_prod_base'], 3, writer=True)
     import stridecover
-    stridecover.check(rep, 'EC', {'ec_dot_prod'}, 400)
+    rep.attempt(stridecover.check, rep, 'EC', {'ec_dot_prod'}, 400)
     import gfhalf
-    gfhalf.check(rep, 'EC', {'ec_dot_prod'}, 'rdx', (), 160)
+    rep.attempt(gfhalf.check, rep, 'EC', {'ec_dot_prod'}, 'rdx', (), 160)
+    import tailguard, earlypass
+    rep.attempt(tailguard.check, rep, 'EC', {'ec_dot_prod'}, 30, 20)
+    rep.attempt(earlypass.check, rep, 'EC', {'ec_dot_prod'}, 0)
     return rep.finish()
